@@ -122,6 +122,8 @@ OPC = {
     'res': {'new': 0, 'add': 2, 'clear': 5, 'clone': 6, 'obs': 7},
     'lossy': {'add': 2, 'clear': 5, 'clone': 6, 'obs': 7},
     'heap': {'new': 0, 'add': 2, 'clear': 5, 'clone': 6, 'iter': 7},
+    'hllc': {'fromregs': 1, 'count': 8},
+    'hser': {'new': 0, 'addh': 2, 'ser': 3, 'regs': 7, 'merge': 9, 'eq': 10},
     'td': {'ins': 2, 'quant': 3, 'cdf': 4, 'clear': 5, 'clone': 6, 'count': 8, 'sum': 9, 'mean': 10, 'min': 11, 'max': 12, 'ncent': 13, 'empty': 14},
 }
 
@@ -184,6 +186,18 @@ def translate_ops(case, aux):
             if name == 'query':
                 m, e = f64_dyadic(args[1])
                 out.append((ol(3, [args[0], m, e], [], r), k)); continue
+        if case.st == 'hser' and name == 'de':
+            toks, j = [args[0]], 1
+            while j < len(args):
+                if args[j] == 'R':
+                    cnt = int(args[j + 1]); toks += [1, cnt] + args[j + 2:j + 2 + cnt]; j += 2 + cnt
+                elif args[j] == 'B':
+                    toks += [2, args[j + 1]]; j += 2
+                elif args[j] == 'H':
+                    toks += [3, args[j + 1]]; j += 2
+                else:
+                    toks += [4]; j += 1
+            out.append((ol(4, toks, [], r), k)); continue
         if case.st == 'td' and name == 'new' and res != ['panic']:
             out.append((ol(0, [args[0], args[3]], [], 'S 0'), k)); continue
         if case.st == 'td' and name == 'audit':
